@@ -2,8 +2,12 @@ package main
 
 import (
 	"fmt"
+	"go/ast"
+	"go/parser"
+	"go/token"
 	"os"
 	"path/filepath"
+	"sort"
 	"strings"
 )
 
@@ -196,5 +200,103 @@ func genGrammar() (string, error) {
 	}
 	b.WriteString(strings.Join(rs, ",\n"))
 	b.WriteString("\n]\n\nend Anko.Gen.Grammar\n")
+	return b.String(), nil
+}
+
+// genInventory: every top-level declaration (func / method, var, const, type) of every non-test Go file of the packages the
+// properties are anchored in, as (package directory, file, "kind name") rows sorted by file and position. A function, table or
+// file ADDED anywhere in these packages - code that no flow table can pin because it did not exist when the tables were
+// audited - breaks the inventory tie of the package by name.
+func genInventory() (string, error) {
+	dirs := []string{".", "ast", "ast/astutil", "core", "env", "parser", "vm", "packages"}
+	fset := token.NewFileSet()
+	type row struct{ dir, file, what string }
+	var rows []row
+	for _, d := range dirs {
+		ents, err := os.ReadDir(filepath.Join(repo, d))
+		if err != nil {
+			return "", err
+		}
+		var names []string
+		for _, e := range ents {
+			n := e.Name()
+			if e.IsDir() || !strings.HasSuffix(n, ".go") || strings.HasSuffix(n, "_test.go") {
+				continue
+			}
+			if d == "parser" && n == "parser.go" {
+				continue // goyacc's output: pinned through Gen/ParserGen and Gen/Grammar
+			}
+			names = append(names, n)
+		}
+		sort.Strings(names)
+		for _, n := range names {
+			f, err := parser.ParseFile(fset, filepath.Join(repo, d, n), nil, 0)
+			if err != nil {
+				return "", err
+			}
+			if d == "packages" {
+				// the package tables are Gen/Packages; here only which files exist and what else they declare besides init
+				rows = append(rows, row{d, n, "file"})
+			}
+			for _, decl := range f.Decls {
+				switch x := decl.(type) {
+				case *ast.FuncDecl:
+					name := x.Name.Name
+					if x.Recv != nil && len(x.Recv.List) == 1 {
+						rt := x.Recv.List[0].Type
+						if st, ok := rt.(*ast.StarExpr); ok {
+							rt = st.X
+						}
+						if id, ok := rt.(*ast.Ident); ok {
+							name = id.Name + "." + name
+						}
+					}
+					if d == "packages" && name == "init" {
+						continue
+					}
+					rows = append(rows, row{d, n, "func " + name})
+				case *ast.GenDecl:
+					kind := x.Tok.String()
+					if kind == "import" {
+						continue
+					}
+					for _, sp := range x.Specs {
+						switch s := sp.(type) {
+						case *ast.ValueSpec:
+							for _, id := range s.Names {
+								rows = append(rows, row{d, n, kind + " " + id.Name})
+							}
+						case *ast.TypeSpec:
+							what := "type " + s.Name.Name
+							if st, ok := s.Type.(*ast.StructType); ok && d != "ast" {
+								// struct types outside ast/ (those are Gen/AstSchema): the fields are part of the declaration
+								var fs []string
+								for _, fl := range st.Fields.List {
+									if len(fl.Names) == 0 {
+										fs = append(fs, "(embedded)")
+									}
+									for _, id := range fl.Names {
+										fs = append(fs, id.Name)
+									}
+								}
+								what += " {" + strings.Join(fs, ", ") + "}"
+							}
+							rows = append(rows, row{d, n, what})
+						}
+					}
+				}
+			}
+		}
+	}
+	var b strings.Builder
+	b.WriteString("-- GENERATED by /verif/tools/cmd/extract from the Go files of /repo (top-level declarations). Do not edit.\nnamespace Anko.Gen.Inventory\n\n")
+	b.WriteString("/-- (package directory, file, \"kind name\") for every top-level declaration of every non-test Go file, by package, file and position -/\n")
+	b.WriteString("def decls : List (String × String × String) := [\n")
+	var rs []string
+	for _, r := range rows {
+		rs = append(rs, fmt.Sprintf("  (%s, %s, %s)", leanStr(r.dir), leanStr(r.file), leanStr(r.what)))
+	}
+	b.WriteString(strings.Join(rs, ",\n"))
+	b.WriteString("\n]\n\nend Anko.Gen.Inventory\n")
 	return b.String(), nil
 }
